@@ -1,6 +1,7 @@
 import Zlink.Proofs.Server
 import Zlink.Proofs.ServerQuiet
 import Zlink.Proofs.ServerOracle
+import Zlink.Proofs.ServerWake
 /-! # C08 — Server answers each call once, in order, on its own connection; oneway gets none
 
 Model: `Zlink/Model/Server.lean` (`server/mod.rs`, `server/select_all.rs`) over the poll-level receive
@@ -84,6 +85,46 @@ theorem C08_model_satisfies_oracle (C : Consts) (hstep : 0 < C.step) (sizes : Na
     (∀ p ∈ s.streams, p.2.good = true → p.2.out = SpecSrv.refOutCredit p.2.granted p.2.descs) :=
   idle_output_is_reference C hstep sizes evs hev hacct hidle
 
+/-! ### The waker contract: nothing is lost when the server is polled only when woken
+
+`Srv.runW` drives the same loop the way an executor does: the task is polled once when spawned and afterwards only
+when its waker was woken; an event wakes it iff its source is one the parked server waits on (`Srv.wakes`: the
+listener, the socket of a connection it is reading from, the reply stream of a parked client). `stalled` says that
+an executed poll ran out of the model's fuel before every branch was pending (the loop itself has no such bound). -/
+
+/-- **C08 (no lost wake-up).** After EVERY sequence of events, under wake-driven polling: if the server task is
+    not scheduled, `Server::run` has nothing to do - its next poll would find every branch of the select pending.
+    No arrival, connection, close or stream result is ever left waiting for a poll that will not come. -/
+theorem C08_no_lost_wakeup (C : Consts) (sizes : Nat → Nat) (evs : List Srv.Ev) :
+    let w := runW C sizes evs initW
+    w.stalled = false → w.woken = false → iter C sizes w.s = none := by
+  intro w hst hwk
+  have := (runW_spec C sizes evs initW (parked_initW C sizes) hst).2
+  exact iter_none_of_idle C sizes _ (this hst hwk)
+
+/-- **C08 (wake-driven = eager).** Polling the server only when woken computes exactly the states that polling it
+    after every event computes: every theorem about `runEvs` (refinement, quiescence, C09, C10, C18) is a theorem
+    about the server under a real executor. -/
+theorem C08_wake_driven (C : Consts) (sizes : Nat → Nat) (evs : List Srv.Ev)
+    (hst : (runW C sizes evs initW).stalled = false) :
+    (runW C sizes evs initW).s = runEvs C sizes evs init :=
+  (runW_spec C sizes evs initW (parked_initW C sizes) hst).1
+
+/-- **C08 (a parked server owes nothing).** Under wake-driven polling, whenever the server task is not scheduled,
+    every well-behaved connection whose bytes have all arrived has had all its calls answered, exactly as the
+    sequential reference prescribes - `C08_quiescent` without assuming that somebody keeps polling. -/
+theorem C08_parked_all_answered (C : Consts) (hstep : 0 < C.step) (sizes : Nat → Nat)
+    (evs : List Srv.Ev) (hev : Srv.EvsOK C sizes evs init) :
+    let w := runW C sizes evs initW
+    w.stalled = false → w.woken = false →
+    w.s.listenQ = [] ∧ (∀ p ∈ w.s.streams, p.2.credit = 0) ∧
+    ∀ c ∈ w.s.conns, c.good = true → c.fut = [] → c.calls = [] ∧ c.out = expectedOut c.descs := by
+  intro w hst hwk
+  have hidle := C08_no_lost_wakeup C sizes evs hst hwk
+  have hs : w.s = runEvs C sizes evs init := C08_wake_driven C sizes evs hst
+  rw [hs] at hidle ⊢
+  exact C08_quiescent C hstep sizes evs hev hidle
+
 /-- A call flagged oneway gets nothing, whatever the service answers. -/
 theorem C08_oneway_silent (v : Nat) : answer (.echo v true) = [] ∧ answer (.fail true) = [] := ⟨rfl, rfl⟩
 
@@ -110,5 +151,15 @@ example : (runEvs C (fun _ => 100) evs Srv.init).all.map (fun c => (c.id, c.out)
 example : iter C (fun _ => 100) (runEvs C (fun _ => 100) evs Srv.init) = none := by decide
 /-- … and the accounting hypothesis of `C08_model_satisfies_oracle` -/
 example : Srv.EvsAcct evs := by simp [Srv.EvsAcct, Srv.EvAcct, evs, c0, c1, conn]
+/-- wake-driven polling of the same events with two extra polls nobody asked for (the second `run` finds the task
+    not scheduled and is skipped; the arrivals wake it again): no poll stalls, the task ends parked, same outputs -/
+def evsW : List Srv.Ev := [.connect c0, .connect c1, .arrive 0 [1, 2, 0, 3], .run 50, .run 50, .arrive 1 [9, 0], .arrive 0 [0], .run 50, .run 50]
+example : let w := runW C (fun _ => 100) evsW initW
+    w.stalled = false ∧ w.woken = false ∧ w.s.all.map (fun c => (c.id, c.out)) =
+    [(0, [.R 7]), (1, [.I 0 (some true), .I 1 (some false)])] := by decide
+/-- an arrival for a client whose reply stream is open wakes nobody (the server does not read from it), a result of its
+    stream does -/
+example : let s := runEvs C (fun _ => 100) [.connect { c1 with credit := 1, granted := 1 }, .arrive 1 [9, 0], .run 50] Srv.init
+    wakes s (.arrive 1 [5]) = false ∧ wakes s (.produce 1 1) = true ∧ wakes s (.produce 1 0) = false := by decide
 end Example
 end C08
